@@ -878,6 +878,86 @@ func (g *apuGenSt) measureWave(f int) {
 	g.p.c.class(fmt.Sprintf("period/ch3/f%03x/%s", f, o))
 }
 
+// C21 in context: another channel is (re)triggered while the measured one runs; the frequency is rewritten without a
+// trigger while the sweep unit is armed; NR43 is rewritten on a running noise channel (width bit, shift codes 14/15 and
+// back) - the waveform must step as the registers say
+func (g *apuGenSt) measureInContext() {
+	rng := g.p.c.rng
+	for _, ch := range []int{2, 3, 4} {
+		for k := 0; k < 3; k++ {
+			g.reset(0)
+			f := 0x700 + rng.intn(0xf0)
+			g.w(0xff12, 0xf0)
+			g.w(0xff13, 0x00)
+			g.w(0xff14, 0x84)
+			switch ch {
+			case 2:
+				g.w(0xff17, 0xf0)
+				g.w(0xff18, f&0xff)
+				g.w(0xff19, 0x80|f>>8)
+			case 3:
+				g.w(0xff1a, 0x80)
+				g.w(0xff1d, f&0xff)
+				g.w(0xff1e, 0x80|f>>8)
+			default:
+				g.w(0xff21, 0xf0)
+				g.w(0xff22, 0x10|rng.intn(4))
+				g.w(0xff23, 0x80)
+			}
+			g.c(rng.intn(9))
+			for j := 0; j < 4; j++ {
+				g.p.do(fmt.Sprintf("m %d 3 4000", ch))
+				// a lower-numbered channel is restarted in this very cycle
+				g.w([]int{0xff14, 0xff19, 0xff1e}[rng.intn(ch-1)], 0x80|rng.intn(8))
+			}
+			g.p.do(fmt.Sprintf("m %d 3 4000", ch))
+		}
+	}
+	for k := 0; k < 6; k++ { // pitch slide on channel 1 with the sweep unit armed
+		g.reset(0)
+		g.w(0xff10, []int{0x11, 0x21, 0x19, 0x71, 0x12, 0x00}[k])
+		g.w(0xff12, 0xf0)
+		g.w(0xff13, 0x00)
+		g.w(0xff14, 0x84) // 0x400
+		g.c(rng.intn(40))
+		f2 := 0x600 + rng.intn(0x1f0)
+		g.w(0xff13, f2&0xff)
+		g.w(0xff14, f2>>8)
+		g.p.expectP = 4 * (2048 - f2)
+		g.p.do(fmt.Sprintf("m 1 1 %d", 2*(2048-0x400)+2*(2048-f2)+16))
+		g.p.expectP = 4 * (2048 - f2)
+		g.p.do(fmt.Sprintf("m 1 5 %d", 7*(2048-f2)+16))
+	}
+	for _, seq := range [][]int{{0x00, 0x08}, {0x08, 0x00}, {0xe0, 0x00}, {0xf1, 0x11}, {0xd0, 0x00}, {0x00, 0xe0, 0x00}} {
+		for variant := 0; variant < 2; variant++ { // NR43 rewritten on the running channel / across an APU power cycle
+			g.reset(0)
+			g.w(0xff21, 0xf0)
+			g.w(0xff22, seq[0])
+			g.w(0xff23, 0x80)
+			g.c(200 + rng.intn(300))
+			for _, v := range seq[1:] {
+				if variant == 1 {
+					g.w(0xff26, 0x00)
+					g.w(0xff26, 0x80)
+					g.w(0xff21, 0xf0)
+				}
+				g.w(0xff22, v)
+				if variant == 1 {
+					g.w(0xff23, 0x80)
+				}
+				g.c(100 + rng.intn(200))
+			}
+			for j := 0; j < 12; j++ {
+				g.p.do("wf")
+				g.c(2 + rng.intn(7))
+				if j == 5 {
+					g.c(33000) // a period started under a large shift code runs out first
+				}
+			}
+		}
+	}
+}
+
 // a low-byte-only frequency write (no NRx4 write after it) while the OTHER channels are programmed with different
 // high bits: the documented period uses the channel's own high bits
 func (g *apuGenSt) measureLowOnly(ch, f, low int) {
@@ -1292,6 +1372,24 @@ func apuGen(c *ctx) {
 			}
 			c.class(fmt.Sprintf("mixer-sweep/%x", chans))
 		}
+		// wave RAM written while channel 3 plays (inside and outside the access window), loud routing: every sample stays
+		// what the model says (and so in [0, 1))
+		for _, f := range []int{0x400, 0x700, 0x7c0, 0x7f8} {
+			for k := 0; k < 3; k++ {
+				g.reset(3)
+				g.w(0xff24, 0x77)
+				g.w(0xff25, 0x44)
+				g.w(0xff1a, 0x80)
+				g.w(0xff1c, 0x20)
+				g.w(0xff1d, f&0xff)
+				g.w(0xff1e, 0x80|f>>8)
+				for j := 0; j < 40; j++ {
+					g.c(1 + c.rng.intn(2*(2048-f)/4+3))
+					g.w(0xff30+c.rng.intn(16), []int{0xff, 0xf0, 0x9e, 0x7f}[c.rng.intn(4)])
+					g.c(30)
+				}
+			}
+		}
 		// a consumer that stalls once: the producer waits, no sample is dropped
 		p.do("stall 4000")
 		c.class("stall")
@@ -1369,6 +1467,7 @@ func apuGen(c *ctx) {
 				g.measureNoiseVol(v, 3, []int{0x08, 0x09, 0x0f, 0x18}[i%4])
 			}
 		}
+		g.measureInContext()
 		c.notes["frequencies_measured"] = len(fs)
 		c.notes["nr43_measured"] = len(nr43s)
 		c.notes["period_ok"] = p.pOK
